@@ -1102,7 +1102,10 @@ class Facts(FactReach):
           nxt.append((m, f))
       else:
         nxt = [(m, f) for m in cfg.succ[nid]]
+      ign = getattr(self, "ignore_edges", None)
       for (m, g) in nxt:
+        if ign and (nid, m) in ign:
+          continue
         work.append((m, frozenset(g.items())))
     return out
 
@@ -1528,3 +1531,28 @@ def is_frame_reset(w, fi, target):
               not (cfg.reach({r}) & loops) for r in rs) and \
       not any(cfg.reach({r}) & loops for r in rs)
   return before or after
+
+
+def typed_handler_noise(cfg, try_stmt, raisers):
+  """Exceptional edges into the *typed* handlers of `try_stmt` from nodes other than `raisers`: the
+  exceptions those handlers name (OrderError, RequestingError) are raised by the evaluation only,
+  so such edges are artefacts of "any call may raise"."""
+  hs = {n.id for n in cfg.nodes if n.kind == "handler" and
+        any(n.stmt is h and h.type is not None for h in try_stmt.handlers)}
+  return {(a, b) for (a, b) in cfg.exc_edges if b in hs and a not in raisers}
+
+
+def reach_pruned(cfg, starts, removed=(), ignore_edges=()):
+  """cfg.reach with some edges ignored."""
+  removed = set(removed)
+  seen = set()
+  stack = [s_ for s_ in starts if s_ not in removed]
+  while stack:
+    x = stack.pop()
+    if x in seen:
+      continue
+    seen.add(x)
+    for y in cfg.succ[x]:
+      if y not in removed and y not in seen and (x, y) not in ignore_edges:
+        stack.append(y)
+  return seen
